@@ -261,6 +261,19 @@ def file_names(spec):
     if 'raw' in spec: return [w.split(' ')[1] for w in (' ' + (spec.get('tokens') or '')).split(' G ')[1:]]
     return [c.get('fname', c['name'])[:20] for c in spec.get('entries', [])]
 
+NOSLOT_OPS = ('add', 'addmany', 'read', 'readmany')
+BCAP = [512]      # CRYSTALARRAY_MAX of the working tree (set by Env.build_c)
+OPLINE = re.compile(r'^(op (\d+) \w+ ret=\S+) err=.*$')
+def without_error_objects(lines, ns):
+    """the prediction for a history in which the operations `ns` pass no error slot: the same lines (return value, refusals, every observation
+    afterwards) minus the error object of those operations.  A `ub` line stays as it is."""
+    if not ns: return lines
+    out = []
+    for l in lines:
+        m = OPLINE.match(l) if l.startswith('op ') else None
+        out.append(m.group(1) + ' err=-' if (m and int(m.group(2)) in ns) else l)
+    return out
+
 class Hist:
     """a history: ops are dicts; handles are indices into the caller's tables, renumbered on shrinking"""
     def __init__(self, ops, pool=None, kind='valid', shared=None):
@@ -272,9 +285,15 @@ class Hist:
         return [dict(many=(o['n'], o['seed'])) if o['op'] == 'readmany' else o['file'] for o in self.ops
                 if o['op'] == 'readmany' or (o['op'] == 'read' and isinstance(o['file'], dict))]
 
-    def lines(self, builtin_lines):
+    def noslot_ops(self):
+        """indices of the operations made WITHOUT an error slot (`xrl_error **error` = NULL): harness line `N:<op> …`"""
+        return {i for i, o in enumerate(self.ops) if o.get('noslot') and o['op'] in NOSLOT_OPS}
+
+    def lines(self, builtin_lines, for_c=True):
+        """the history file.  for_c: as harness/c14drv.c reads it (`N:` prefix on operations without an error slot); otherwise as the model and
+        the specification read it (they predict the call with a slot; `without_error_objects` then removes the error object from the prediction)"""
         out = list(builtin_lines) + ['pool ' + ' '.join(self.pool)]
-        nfile = 0; files = []
+        nfile = 0; files = []; ns = self.noslot_ops() if for_c else set(); first = len(out)
         for o in self.ops:
             k = o['op']
             if k == 'init': out.append('init %d' % o['n'])
@@ -294,6 +313,7 @@ class Hist:
             elif k == 'free': out.append('free %d' % o['j'])
             elif k == 'afree': out.append('afree %d' % o['i'])
             elif k == 'scrib': out.append('scrib %d %s' % (o['j'], hx(o['w'])))
+        for i in ns: out[first + i] = 'N:' + out[first + i]
         return out, files
 
     @staticmethod
@@ -451,6 +471,14 @@ def gen_history(rng, kind='valid', length=None):
     # every name that can be in a collection is looked up in every live collection after every operation: the short names of this
     # history, the names longer than the 20 characters a file can carry, and the 20-character prefixes files store for long names
     cut = sorted({x for o in ops if o['op'] == 'read' and isinstance(o['file'], dict) and 'raw' not in o['file'] for x in file_names(o['file']) if len(x) == 20} - set(names))
+    # a share of the histories makes some of its additions / file reads WITHOUT an error slot (error = NULL: the caller looks at the return value only):
+    # same return value, same refusals, same state afterwards.  Drawn from a generator of its own, after the history is complete: the histories themselves
+    # are the ones the seed gave before this was added.  builtin_full histories (they cross the fixed capacity of the built-in collection) more often.
+    r2 = random.Random(rng.getrandbits(32))
+    if r2.random() < (0.6 if kind == 'builtin_full' else 0.35):
+        p_ = r2.choice([0.2, 0.5, 1.0])
+        for o in ops:
+            if o['op'] in NOSLOT_OPS and r2.random() < p_: o['noslot'] = True
     return Hist(ops, names + LONG_NAMES + cut, kind)
 
 # --------------------------------------------------------------------------------------------------------------
@@ -462,7 +490,7 @@ def bulk_histories(rng, bcap, nbuiltin, tier='quick'):
     the usual observation: count, capacity, order in memory, listing, and a lookup of a sample of the generated names (first, last, random
     ones, the first one beyond the family, another family's) - all predicted by the model and by the specification."""
     free = bcap - nbuiltin
-    fams = rng.sample(range(1, 1000), 40); fi = iter(fams)
+    fams = rng.sample(range(1, 1000), 60); fi = iter(fams)
     out = []
     def pool_for(fams_n, extra=()):
         ns = []
@@ -493,6 +521,25 @@ def bulk_histories(rng, bcap, nbuiltin, tier='quick'):
     H([dict(op='readmany', arr='B', n=free + 1, seed=s1), dict(op='list', arr='B'), dict(op='readmany', arr='B', n=free - k, seed=s2),
        dict(op='readmany', arr='B', n=k + 1, seed=s3), dict(op='readmany', arr='B', n=k, seed=s3), dict(op='addmany', arr='B', n=2, seed=s1)],
       [(s1, free + 1), (s2, free - k), (s3, k + 1)])
+    # (c') the same WITHOUT an error slot (`N:` operations, error = NULL) next to the same with one: the refusal at the fixed capacity must not depend on
+    # the caller having handed in a place for the error object.  Exactly-full table + one more (single addition, file with one crystal), with and without slot;
+    # bulk additions across the capacity without slot; a file that is one too long without slot; user arrays grown without slot.
+    s1, s2, s3, s4 = next(fi), next(fi), next(fi), next(fi)
+    H([dict(op='readmany', arr='B', n=free, seed=s1), dict(op='addmany', arr='B', n=1, seed=s2, noslot=True), dict(op='addmany', arr='B', n=1, seed=s2),
+       dict(op='readmany', arr='B', n=1, seed=s3, noslot=True), dict(op='readmany', arr='B', n=1, seed=s3), dict(op='addmany', arr='B', n=2, seed=s4, noslot=True),
+       dict(op='get', arr='B', name=many_name(s2, 0)), dict(op='list', arr='B'), dict(op='free', j=0)], [(s1, free), (s2, 1), (s3, 1), (s4, 2)])
+    H([dict(op='addmany', arr='B', n=free, seed=s1, noslot=True), dict(op='add', arr='B', src=gen_crystal(rng, 'Zz_one_more'), noslot=True), dict(op='add', arr='B', src=gen_crystal(rng, 'Zz_one_more')),
+       dict(op='add', arr='B', src=gen_crystal(rng, 'Si'), noslot=True), dict(op='add', arr='B', src='N', noslot=True), dict(op='list', arr='B')], [(s1, free)])
+    H([dict(op='addmany', arr='B', n=free + k, seed=s1, noslot=True), dict(op='get', arr='B', name=many_name(s1, free - 1)), dict(op='get', arr='B', name=many_name(s1, free)),
+       dict(op='list', arr='B'), dict(op='free', j=0), dict(op='free', j=1)], [(s1, free + k)])
+    H([dict(op='readmany', arr='B', n=free + 1, seed=s1, noslot=True), dict(op='list', arr='B'), dict(op='readmany', arr='B', n=free - k, seed=s2, noslot=True),
+       dict(op='readmany', arr='B', n=k + 1, seed=s3, noslot=True), dict(op='readmany', arr='B', n=k, seed=s3, noslot=True), dict(op='addmany', arr='B', n=2, seed=s1, noslot=True),
+       dict(op='list', arr='B')], [(s1, free + 1), (s2, free - k), (s3, k + 1)])
+    for cap, n in ((0, bcap + 20), (7, 300)):
+        s1, s2 = next(fi), next(fi)
+        H([dict(op='init', n=cap), dict(op='addmany', arr='A0', n=n, seed=s1, noslot=True), dict(op='addmany', arr='A0', n=15, seed=s1, noslot=True),
+           dict(op='readmany', arr='A0', n=n + 40, seed=s1, noslot=True), dict(op='readmany', arr='A0', n=bcap + 1, seed=s2, noslot=True), dict(op='add', arr='A0', src=gen_crystal(rng, 'Aa'), noslot=True),
+           dict(op='add', arr='A0', src=gen_crystal(rng, 'Aa'), noslot=True), dict(op='list', arr='A0'), dict(op='afree', i=0)], [(s1, n + 40), (s2, bcap + 1)])
     # (d) a user array grown past CRYSTALARRAY_MAX next to a filled built-in collection
     s1, s2 = next(fi), next(fi)
     H([dict(op='init', n=rng.randint(0, 12)), dict(op='addmany', arr='B', n=free - 2, seed=s1), dict(op='readmany', arr='A0', n=bcap + 88, seed=s1),
@@ -590,7 +637,7 @@ class Env:
         self.cdrv = cbuild.link(self.sc, objs, [HARNESS], self.sc.path('c14drv'), fl + WRAP)
         m = re.search(r'#define\s+CRYSTALARRAY_MAX\s+(\d+)', open(os.path.join(REPO, 'include', 'xraylib-defs.h')).read())
         if not m: raise BuildError('CRYSTALARRAY_MAX not found in include/xraylib-defs.h')
-        self.bcap = int(m.group(1))
+        self.bcap = int(m.group(1)); BCAP[0] = self.bcap
         p = subprocess.run([self.cdrv, '/dev/null', self.sc.dir, 'dump'], capture_output=True, text=True, env=self.cenv())
         if p.returncode != 0 or not p.stdout.startswith('builtin '):
             raise BuildError('dump of the built-in collection failed: ' + (p.stderr or p.stdout)[-1500:])
@@ -630,6 +677,9 @@ class Env:
         for h, (d, hp) in zip(hists, mats):
             lines, _ = h.lines(self.builtin_ref)
             with open(hp, 'w', encoding='latin-1') as f: f.write('\n'.join(lines) + '\n')
+            if h.noslot_ops():            # the model and the specification read the history without the `N:` marks
+                lines, _ = h.lines(self.builtin_ref, for_c=False)
+                with open(model_path(hp), 'w', encoding='latin-1') as f: f.write('\n'.join(lines) + '\n')
         return mats
 
     def parse_files(self, paths):
@@ -699,6 +749,7 @@ class Env:
                 elif cur is not None and l != '': out[cur].append(l)
         return out
 
+def model_path(hp): return hp[:-4] + '.model.txt'
 VOL = re.compile(r' v=(x[0-9a-f]{16})')
 def line_agrees(c, m, stats):
     if c == m: return True
@@ -766,7 +817,8 @@ def check_histories(env, hists, stats, jobs=14, modes=('model', 'spec'), cdrv=No
     t1 = time.time()
     cres = env.run_c_batch(mats, jobs, cdrv)
     t2 = time.time()
-    hps = [hp for _, hp in mats]
+    mp = {hp: (model_path(hp) if h.noslot_ops() else hp) for h, (_, hp) in zip(hists, mats)}
+    hps = [mp[hp] for _, hp in mats]
     chunks = [hps[i::jobs] for i in range(jobs) if hps[i::jobs]]
     res = {}
     for mode in modes:
@@ -780,7 +832,7 @@ def check_histories(env, hists, stats, jobs=14, modes=('model', 'spec'), cdrv=No
             stats['reader_unsupported'] = stats.get('reader_unsupported', 0) + 1
         else:
             for mode in modes:
-                ml = res[mode].get(hp, [])
+                ml = without_error_objects(res[mode].get(mp[hp], []), h.noslot_ops())
                 if mode == 'model':
                     if any(re.match(r'op \d+ read unsupported$', l) for l in ml[-1:]):
                         stats['reader_unsupported'] = stats.get('reader_unsupported', 0) + 1; break
@@ -792,8 +844,9 @@ def check_histories(env, hists, stats, jobs=14, modes=('model', 'spec'), cdrv=No
             account(h, cl, died, stats)
         if h.shared is None: shutil.rmtree(d, ignore_errors=True)
         else:
-            try: os.unlink(hp)
-            except OSError: pass
+            for x in {hp, mp[hp]}:
+                try: os.unlink(x)
+                except OSError: pass
     if timing is not None:
         for k, v in (('materialise', t1 - t0), ('library', t2 - t1), ('model_and_spec', t3 - t2), ('compare', time.time() - t3)):
             timing[k] = round(timing.get(k, 0.0) + v, 2)
@@ -809,7 +862,7 @@ def account(h, cl, died, stats):
     for l in cl:
         if l.startswith('op '):
             t = l.split(' ')
-            failed = ' err=' in l and not l.endswith('err=-')
+            failed = (' err=' in l and not l.endswith('err=-')) or (t[2] in ('add', 'read', 'readmany') and ' ret=0 ' in l)      # without a slot a refusal shows in the return value only
             key = t[2] + (':fail' if failed else ':ok')
             stats.setdefault('dist', {}); stats['dist'][key] = stats['dist'].get(key, 0) + 1
             if (not failed and t[2] in ('add', 'read', 'readmany')) or (t[2] == 'addmany' and ' ret=0/' not in l): mutated = True
@@ -834,6 +887,16 @@ def account(h, cl, died, stats):
         elif l.startswith('op '):
             t = l.split(' ', 4)
             if len(t) > 3 and t[1].isdigit(): rets[int(t[1])] = l
+    ns = h.noslot_ops()
+    if ns:
+        d = stats.setdefault('ops_without_error_slot', {'histories': 0, 'ops': 0, 'refused': 0, 'refused_at_builtin_capacity': 0})
+        d['histories'] += 1
+        for k in ns:
+            r = rets.get(k)
+            if r is None: continue
+            d['ops'] += 1
+            if re.search(r' ret=0 | ret=\d+/\d+ ', r): d['refused'] += 1
+            if h.ops[k].get('arr') == 'B' and re.search(r' ret=0 | ret=\d+/\d+ ', r) and stats.get('max_builtin', 0) >= 0 and any(l.startswith('B list %d ' % BCAP[0]) for l in cl): d['refused_at_builtin_capacity'] += 1
     lg = stats.setdefault('get_ops_by_name_length', {'>20': {'found': 0, 'absent': 0}, '=20': {'found': 0, 'absent': 0}, '<20': {'found': 0, 'absent': 0}})
     fk = stats.setdefault('file_kinds', {})
     for k, o in enumerate(h.ops):
@@ -1292,7 +1355,11 @@ class C14:
                         'not in insertion order; answers the number accepted, the index of the first refusal and its error) and `readmany` (generated files with 300, CRYSTALARRAY_MAX - 1, 600 and 1100 crystals) - into user arrays of initial capacity '
                         '0, 7, 12, 3, 1 (growth past 512 and 1024 entries), repeated (all duplicates: refused), and into the built-in collection around its capacity (additions up to the refusal, a file that fits exactly, a file with one crystal '
                         'too many, refills); count, capacity, memory order, listing and a sample of lookups compared after every operation; a bulk operation is the sequence of its single operations through the unchanged model / specification '
-                        'step.  non-trivial = distinct histories with at least one successful addition or file load' % len(POOL),
+                        'step.  (d) NO ERROR SLOT: about a third of the random histories (60 %% of those that cross the capacity of the built-in collection) make some or all of their additions / file reads with error = NULL '
+                        '(harness line `N:<op>`), and bulk sessions do it around the fixed capacity: exactly-full built-in table + one more (single addition, one-crystal file) without and with a slot, bulk additions and a file one too long '
+                        'without slot, user arrays grown past 512 without slot; the model and the specification predict the call with a slot, the prediction minus the error object must be what the library does '
+                        '(ops_without_error_slot).  non-trivial = distinct histories with at least one successful addition or file load' % len(POOL),
+                   ops_without_error_slot=stats.get('ops_without_error_slot', {}),
                    samples=samples, histories=stats.get('histories', 0), lines_compared=stats.get('lines', 0), kinds=stats.get('kinds', {}),
                    distribution=stats.get('dist', {}), errors_hit=stats.get('errors', {}), ub_agreed=stats.get('ub_agreed', 0), impl_aborts=stats.get('impl_aborts', 0),
                    max_user_array=stats.get('max_n', 0), max_capacity=stats.get('max_alloc', 0), max_builtin=stats.get('max_builtin', 0),
